@@ -113,6 +113,10 @@ def tabulate(est, kind, sample, rng, smooth=True):
         span = hi - lo
         out = quad(f, lo - 60 * span, lo, limit=400)[0] + quad(f, hi, hi + 60 * span, limit=400)[0]
         pm = float(np.squeeze(est(np.array([float(est.mode)]))))
+        # the neighbourhood of the reported mode, resolved finely: one standard deviation either side in 512 steps,
+        # each density expressed relative to the density at the mode in units of 2^-26
+        xl = float(est.mode) + sd * np.linspace(-1.0, 1.0, 513)
+        Pl = [q(v / pm * 2 ** 26) if pm > 0 else 2 ** 30 for v in np.asarray(est(xl), dtype=float)]
         iv, ends = [], []
         for fr in FRACTIONS:
             a, b = (float(v) for v in est.interval(fr))
@@ -127,7 +131,7 @@ def tabulate(est, kind, sample, rng, smooth=True):
     mo = {"mean": q((mu - mean) / sd * M), "var": q(var / sd ** 2 * M), "skew": q(skw * M), "kurt": q(kur * M),
           "mean_r": q(mr[0] * M), "var_r": q(mr[1] * M), "skew_r": q(mr[2] * M), "kurt_r": q(mr[3] * M),
           "mean_w": q(mw[0] * M), "var_w": q(mw[1] * M), "skew_w": q(mw[2] * M), "kurt_w": q(mw[3] * M)}
-    rec = {"int_ok": int_ok, "smooth": bool(smooth), "P": [q(v * dx * U) for v in p], "F": [q(v * U) for v in F], "Fs": Fs, "out": q(out * U), "pm": q(pm * dx * U), "iv": iv, "mo": mo}
+    rec = {"int_ok": int_ok, "smooth": bool(smooth), "mtol": 2 if kind == "unimodal" else 1000, "P": [q(v * dx * U) for v in p], "F": [q(v * U) for v in F], "Fs": Fs, "out": q(out * U), "pm": q(pm * dx * U), "Pl": Pl, "iv": iv, "mo": mo}
     norm = {"mean": (mu - mean) / sd, "var": var / sd ** 2, "skew": skw, "kurt": kur, "ends": ends, "p_mode": pm * sd,
             "limits": [(lo - mean) / sd, (hi - mean) / sd]}
     return rec, norm
